@@ -571,9 +571,10 @@ def sk_planning(V, goal_kind):
     V.assume(t_lo <= t_hi)
     kw = dict(time_step=Interval(t_lo, t_hi))
     lanelets = None
-    if goal_kind == "lanelets":
+    second = goal_kind == "lanelets-second"  # the goal state without a position comes first, the lanelet goal second
+    if goal_kind in ("lanelets", "lanelets-second"):
         kw["position"] = ShapeGroup([net.find_lanelet_by_id(1).polygon, net.find_lanelet_by_id(2).polygon])
-        lanelets = {0: [1, 2]}
+        lanelets = {1 if second else 0: [1, 2]}
     elif goal_kind == "group":
         # (a goal position may list several shapes of one kind only)
         kw["position"] = ShapeGroup([mk_shape(V, "rectangle", "goal0"), mk_shape(V, "rectangle", "goal1")])
@@ -588,7 +589,7 @@ def sk_planning(V, goal_kind):
         kw["velocity"] = Interval(vlo, vhi)
     g1 = st.CustomState(**kw)
     g2 = st.CustomState(time_step=Interval(3, 9))
-    pp = PlanningProblem(100, init, GoalRegion([g1, g2], lanelets))
+    pp = PlanningProblem(100, init, GoalRegion([g2, g1] if second else [g1, g2], lanelets))
     pps = PlanningProblemSet([pp])
 
     def check(V, sc2, pps2, d):
@@ -599,7 +600,14 @@ def sk_planning(V, goal_kind):
             c.state("initial state", p2.initial_state, init, initial=True)
             c.add("number of goal states", len(p2.goal.state_list) == 2)
             if len(p2.goal.state_list) == 2:
-                if goal_kind == "lanelets":
+                if second:
+                    a, b = p2.goal.state_list[1], g1
+                    c.add("goal lanelets belong to the second goal state", p2.goal.lanelets_of_goal_position is not None and
+                          {k: list(v) for k, v in p2.goal.lanelets_of_goal_position.items() if v} == {1: [1, 2]})
+                    c.value("goal time", a.time_step, b.time_step)
+                    c.add("goal position is the group of lanelet polygons", isinstance(a.position, ShapeGroup) and len(a.position.shapes) == 2)
+                    c.state("goal state 0", p2.goal.state_list[0], g2)
+                elif goal_kind == "lanelets":
                     a, b = p2.goal.state_list[0], g1
                     c.add("goal lanelets", p2.goal.lanelets_of_goal_position == {0: [1, 2]})
                     c.value("goal time", a.time_step, b.time_step)
@@ -607,7 +615,8 @@ def sk_planning(V, goal_kind):
                 else:
                     c.add("no goal lanelets", p2.goal.lanelets_of_goal_position is None)
                     c.state("goal state 0", p2.goal.state_list[0], g1)
-                c.state("goal state 1", p2.goal.state_list[1], g2)
+                if not second:
+                    c.state("goal state 1", p2.goal.state_list[1], g2)
         c.prove("planning problem read back")
 
     return sc, pps, check
@@ -653,6 +662,7 @@ SKELETONS = {
     "planning.polygon": lambda V: sk_planning(V, "polygon"),
     "planning.group": lambda V: sk_planning(V, "group"),
     "planning.lanelets": lambda V: sk_planning(V, "lanelets"),
+    "planning.lanelets-second": lambda V: sk_planning(V, "lanelets-second"),
     "planning.no-position": lambda V: sk_planning(V, "none"),
     "dynamic.setbased-phantom-environment": sk_dynamic_setbased,
     "dynamic.uncertain": sk_uncertain,
